@@ -18,7 +18,7 @@ OUTSIDE = ["more versions than V or a latest percentage above P (the percent gri
            "NaN inputs (the function replaces them by 0 before anything else)"]
 BOUNDS = {"quick": "one unit; V = 1 and V = 2 versions with latest percent <= 3; V = 3 with latest percent < 1 or non-monotone turnout; "
                    "every order / tie / zero pattern of the symbolic votes",
-          "thorough": "adds V = 3 with latest percent <= 2 (all), V = 2 with latest percent <= 5, two units in one call"}
+          "thorough": "adds V = 3 with latest percent <= 2 (all), V = 2 with latest percent <= 4, two units in one call"}
 OPTS = {"quick": dict(case_timeout_s=900, solver_timeout_ms=30000, max_paths=200000),
         "thorough": dict(case_timeout_s=3300, solver_timeout_ms=60000, max_paths=2000000)}
 
@@ -40,7 +40,7 @@ def cases(tier):
         # the two heaviest parts of V3_P2 (latest percent >= 1 with monotone turnout: 6-16 min of nlsat) are thorough-only
         out = [c for c in out if not (c["V"] == 3 and c.get("mono") and c.get("top", 0) >= 1)]
     if tier == "thorough":
-        split("V2_P5", 2, 5, 50)
+        split("V2_P4", 2, 4, 50)
         split("V2_P3_two_units", 2, 3, 40, units=2)
     return out
 
